@@ -1,6 +1,8 @@
 //! C02.O3 — `validate_immutable` / `hash_immutable` against SHA1(len ":" v) with an independently
 //! built prefix (real sha1_smol on both sides).
 use super::*;
+#[allow(unused_imports)]
+use crate::verif_env::k as kani;
 
 fn ref_hash(v: &[u8]) -> [u8; 20] {
     // bencode byte-string framing written out by hand: decimal length, ':', bytes
